@@ -670,3 +670,55 @@ pub fn record_display(runs: usize, path: &str) {
         }
     }
 }
+
+/// Transliterate the three non-ASCII signs the crate's Display texts use (Display.tla speaks ASCII); a text that already
+/// contains one of the replacements would make the transliteration ambiguous and is reported as such.
+fn ascii_text(s: &str) -> String {
+    if s.contains(" * ") || s.contains("->") || s.contains('E') { return format!("ambiguous: {}", s); }
+    s.replace('\u{d7}', "*").replace('\u{2192}', "->").replace('\u{3b5}', "E")
+}
+
+/// impl -> spec for the text forms of Display.tla (not a listed property; bin/spec-extras): random types, values, arrows,
+/// words (constructed directly and taken out of a larger value at an unaligned offset) and Merkle roots with their Display
+/// texts, and FromStr of the root text.
+pub fn record_text(runs: usize, path: &str) {
+    use std::str::FromStr;
+    let mut rng = Rng::from_env(102);
+    let mut out = Out::file(path);
+    for k in 0..runs {
+        let ev = guarded(|| {
+            let t = match k % 6 { 0 => Ty::word(rng.range(0, 7)), 1 => Ty::sum(Ty::Unit, rand_small_ty(&mut rng, 2)), _ => rand_small_ty(&mut rng, 3) };
+            let t2 = rand_small_ty(&mut rng, 2);
+            let (ft, ft2) = (ty_of(&t.to_j()), ty_of(&t2.to_j()));
+            let vj = t.rand_val(&mut rng);
+            let v = val_of(&vj, &ft);
+            let arrow = simplicity::types::arrow::FinalArrow { source: ft.clone(), target: ft2.clone() };
+            // a word: every third directly from bits, the others as the second half of (2^a x 2^(2^n)) with a in {1, 2, 4}: a view
+            // into the parent's buffer at a bit offset that is no multiple of eight
+            let n = rng.range(0, 7);
+            let wt = Ty::word(n);
+            let wj = wt.rand_val(&mut rng);
+            let word = if k % 3 == 0 {
+                val_of(&wj, &ty_of(&wt.to_j())).to_word().unwrap()
+            } else {
+                let lead = Ty::word(rng.range(0, 3));
+                let pt = Ty::prod(lead.clone(), wt.clone());
+                let pv = val_of(&json!(["P", lead.rand_val(&mut rng), wj.clone()]), &ty_of(&pt.to_j()));
+                let w = pv.as_ref().as_product().unwrap().1.to_word().unwrap();
+                w
+            };
+            let expect_bits: Vec<bool> = val_of(&wj, &ty_of(&wt.to_j())).iter_compact().collect();
+            let word_bits: Vec<bool> = word.iter().collect();
+            let cmr = simplicity::Cmr::from_byte_array({ let mut b = [0u8; 32]; for x in b.iter_mut() { *x = rng.below(256) as u8; } b });
+            let cmr_text = cmr.to_string();
+            let cmr_back = match simplicity::Cmr::from_str(&cmr_text) { Ok(c) if c == cmr => "same".to_string(), Ok(_) => "differs".to_string(), Err(e) => format!("error: {}", e) };
+            json!({"ev": "text", "ty": t.to_j(), "ty2": t2.to_j(), "val": vj, "ty_text": ascii_text(&ft.to_string()), "val_text": ascii_text(&v.to_string()),
+                   "arrow_text": ascii_text(&arrow.to_string()), "wbits": bits_j(expect_bits), "word_iter_ok": word_bits == val_of(&wj, &ty_of(&wt.to_j())).iter_compact().collect::<Vec<bool>>(),
+                   "word_text": word.to_string(), "cmr_bits": bits_of_bytes(cmr.as_ref()), "cmr_text": cmr_text, "cmr_back": cmr_back})
+        });
+        match ev {
+            Ok(e) => out.emit(&e),
+            Err(p) => out.emit(&json!({"ev": "text", "ty": ["1"], "ty2": ["1"], "val": ["u"], "ty_text": format!("panic: {}", p), "val_text": "", "arrow_text": "", "wbits": [], "word_iter_ok": false, "word_text": "", "cmr_bits": [], "cmr_text": "", "cmr_back": ""})),
+        }
+    }
+}
